@@ -68,8 +68,11 @@ BOUND = Fraction(1, 2**30)
 # Deterministic work limit of one step (operator applications, harness/c07_limits.py).  The
 # unchanged code needs at most a few hundred (measured maximum printed in the evidence as
 # `max_operator_applications_per_step`); see notes/C07.md.
-WORK_LIMIT = 40000
+WORK_LIMIT = 20000
+WORK_LIMIT_LOW = 4000  # limit of the remaining steps of a run once 3 steps have exceeded WORK_LIMIT
 CASE_WALL_S = 300.0  # wall-clock guard of one step: the case is skipped (never judged)
+SHRINK_WALL_S = 90.0  # wall-clock budget of one shrink (only the size of the replay depends on it)
+_EXCEEDED = [0]  # number of steps of this process that hit the work limit
 MAX_EXP = 48
 
 TRUSTED_EXTRA = (
@@ -675,11 +678,13 @@ def _store(discs) -> dict[str, Any]:
 
 def _guarded(fun, solver="") -> dict[str, Any]:
     """Run one step of the implementation under the work limit; exceptions are observations."""
+    limit = WORK_LIMIT if _EXCEEDED[0] < 3 else WORK_LIMIT_LOW
     try:
-        with work_limit(WORK_LIMIT, CASE_WALL_S, "lanczos-type" if solver in LANCZOS else "gmres-type"):
+        with work_limit(limit, CASE_WALL_S, "lanczos-type" if solver in LANCZOS else "gmres-type"):
             return fun()
     except WorkLimit:
-        return {"exc": "work-limit", "msg": f"more than {WORK_LIMIT} linear-operator applications"}
+        _EXCEEDED[0] += 1
+        return {"exc": "work-limit", "msg": f"more than {limit} linear-operator applications"}
     except WallClockSkip:
         return {"skip": "wall-clock"}
     except Exception as e:  # noqa: BLE001
@@ -893,8 +898,14 @@ def oracle(system, request, cfg, obs, exact=None, exps=None) -> list[tuple[str, 
     if exps:
         tag += ":scaled"
     if obs.get("exc") == "work-limit":
-        return [(f"no-return:{tag}", f"the linearization did not return within the limit ({obs.get('msg')}; "
-                 "the unchanged code needs a few hundred at most)")]
+        # The count is deterministic but a slow, correct solve cannot be told from a runaway one by
+        # the count alone: the step is an oracle failure only when the exact observation of the
+        # operands shows that the solver was given a corrupted system; otherwise it is skipped.
+        st = store_failures(system, obs.get("store"))
+        if not st:
+            return [("probe:work-limit-unconfirmed", f"step stopped at the work limit ({obs.get('msg')}), operands intact: not judged")]
+        return [*st, (f"no-return:{tag}", f"the linearization did not return within the limit ({obs.get('msg')}; "
+                      f"99% of the steps of the unchanged code need < 1000) and the operands of the assembly were modified: {st[0][1]}"[:900])]
     if "exc" in obs:
         return [(f"raises:{obs['exc']}:{tag}", f"linearization raised {obs.get('msg')}")]
     bad = []
@@ -1120,7 +1131,10 @@ def case_failures(case, exact=None, observations=None) -> list[tuple[int, str, s
             continue
         cfg = step_cfg(case, st)
         bad = oracle(system, st, cfg, ob, exact, exps)
-        if bad and st["solver"] in LANCZOS:
+        if bad and bad[0][0].startswith("probe:"):
+            out.append((k, bad[0][0], bad[0][1]))
+            continue
+        if bad and st["solver"] in LANCZOS and not any(key.startswith("operand-") for key, _ in bad):
             if any(key.startswith("raises:E:runtime") for key, _ in bad):
                 out.append((k, "probe:solver-breakdown", bad[0][1]))
                 continue
@@ -1133,7 +1147,7 @@ def case_failures(case, exact=None, observations=None) -> list[tuple[int, str, s
                 out.append((k, "probe:skipped-" + ob2["skip"], "step skipped (wall-clock guard), not judged"))
                 continue
             bad2 = oracle(system, alt["steps"][k], step_cfg(alt, alt["steps"][k]), ob2, exact, exps)
-            if not bad2:
+            if not bad2 or bad2[0][0].startswith("probe:"):
                 out.append((k, "probe:solver-accuracy", bad[0][1]))
                 continue
             bad = bad2
@@ -1260,9 +1274,12 @@ def shrink_case(case, key, budget=40) -> dict[str, Any]:
     """Greedy reduction keeping `key` among the failures (every candidate is re-validated as in-scope)."""
 
     calls = [0]
+    t_end = time.time() + SHRINK_WALL_S
+    if key.startswith("no-return"):
+        budget = min(budget, 10)
 
     def fails(c) -> bool:
-        if calls[0] >= budget or not _valid_case(c):
+        if calls[0] >= budget or time.time() > t_end or not _valid_case(c):
             return False
         calls[0] += 1
         try:
@@ -1857,8 +1874,8 @@ def run(ctx) -> Result:
             res.notes.append(f"deadline reached after {i} cases")
             break
         check_cases(res, cases[i : i + batch], use_lean)
-        if len([v for v in res.violations if v.kind == "oracle"]) >= 6:
-            res.notes.append(f"stopped after {i + batch} cases: 6 distinct oracle violations already have a replay")
+        if len([v for v in res.violations if v.kind == "oracle"]) >= 4:
+            res.notes.append(f"stopped after {i + batch} cases: 4 distinct oracle violations already have a replay")
             break
     check_asm(res, asm_items, use_lean)
     res.extra["max_operator_applications_per_step"] = dict(c07_limits.STATE.max_by_tag)
